@@ -11,7 +11,8 @@ RULE = ('windows built by construction: MACH_vmfault (END result zero / non-zero
         '(equal, adjacent) load addresses; PERF_Event with arbitrary 14-bit flag words and every subset/order of '
         '{THD_Data, STK_UHdr, STK_UData x k} (stack words include null frames), also the NONE-qualified (window-less) variant. Unrelated same-thread '
         'records and relevant-kind records of OTHER threads are mixed in; a third of the windows follow an unterminated START of the same '
-        'operation on the same thread with 1..3 relevant records behind it. Oracle: fields of the emitted object '
+        'operation on the same thread with 1..3 relevant records behind it; sub-check two_dumps: one PyKdebugParser object lists a dump that ends '
+        'inside such a window and then a dump that begins with the END: the second reads as on a fresh object. Oracle: fields of the emitted object '
         'against a plain reading of the statement. Non-trivial: >= 2 candidate records, a flag/record mismatch, or an '
         'undecoded nested kind; distinct by window digest.')
 ASSUMPTIONS = ['when the first nested real-fault record is of the undecoded kind, pid/protection may be omitted or '
@@ -201,10 +202,40 @@ def prop_sample(ctx, case):
                       'stack' if want_stack else 'no-stack', *(['after-unterminated-start'] if pre else [])])
 
 
-PROPS = {'vmfault': prop_vmfault, 'launch': prop_launch, 'sample': prop_sample}
+def prop_two_dumps(ctx, case):
+    """one PyKdebugParser object, two dumps: the first ends inside an operation (START and nested records, no END),
+    the second begins with the END of such an operation on the same thread: the second dump reads as on a fresh object
+    (a composite built from the first dump's records would be made of records outside its window, outside its dump)"""
+    from pykdebugparser.pykdebugparser import PyKdebugParser
+    from .. import kmodel
+    from ..io_util import BudgetReader
+    start = case['start']
+    first = [SC.ev(TID, start, 1, case['seed'], 0)] + [SC.ev(TID, code, 0, sd, i) for i, (code, sd, _, _) in enumerate(case['items'])]
+    second = [SC.ev(TID, start, 2, case['seed'] + 1, 1)] + [SC.ev(TID, 'BSC_getpid', q, case['seed'], 2) for q in (1, 2)]
+    if case['complete_after']:
+        second += [SC.ev(TID, start, 1, case['seed'] + 2, 0), SC.ev(TID, start, 2, case['seed'] + 2, 1)]
+
+    def blob(evs):
+        return kmodel.v2_file([(TID, 9, b'p')], 0, [kmodel.ev_record((1001 + 7 * k, t, (EV.eid(c) & ~3) | q, d)) for k, (t, c, q, d) in enumerate(evs)])
+
+    def texts(p, b):
+        return [(t.ktraces[0].timestamp, str(t)) for t in p.traces(BudgetReader(b))]
+    reused = PyKdebugParser()
+    guard(texts, reused, blob(first))
+    got = guard(texts, reused, blob(second))
+    exp = guard(texts, PyKdebugParser(), blob(second))
+    if got != exp:
+        k = next((i for i in range(min(len(got), len(exp))) if got[i] != exp[i]), min(len(got), len(exp)))
+        raise Violation('window-spans-dumps', f'second dump on a reused object: trace {k} is {got[k:k + 1]}, a fresh object gives {exp[k:k + 1]} '
+                                              f'(the first dump ended inside a {start} window)')
+    ctx.note([start, case['complete_after'], [i[0] for i in case['items']]], nontrivial=bool(case['items']), classes=['two-dumps', start])
+
+
+PROPS = {'vmfault': prop_vmfault, 'launch': prop_launch, 'sample': prop_sample, 'two_dumps': prop_two_dumps}
 
 JUNK = ['INTERRUPT', 'DecrSet', 'BSC_pread_extended_info', 'MACH_vm_page_release', 'PERF_THD_CSwitch',
-        'vm_fast_fault', 'vm_disconnect_task_page_mappings', 'vm_slow_fault']      # the last three: ids adjacent to the real-fault records
+        'vm_fast_fault', 'vm_disconnect_task_page_mappings', 'vm_slow_fault',      # these three: ids adjacent to the real-fault records
+        *SC.LOOKALIKES, 0x99990000, 0x2501fff0, 0x1f05fff0]      # ... and ids the code table does not know at all
 
 
 def items(kinds, max_n, extra=st.integers(0, 120)):
@@ -226,6 +257,10 @@ def run(ctx):
                                 'stale': stale_items(['PERF_THD_Data', 'PERF_STK_UHdr', 'PERF_STK_UData'], st.integers(0, 13)),
                                 'items': items(['PERF_THD_Data', 'PERF_STK_UHdr', 'PERF_STK_UData', 'PERF_STK_UData'], 7,
                                                st.integers(0, 13))})
+    kinds = {'MACH_vmfault': SC.REAL_FAULT_KINDS, 'DBG_DYLD_TIMING_LAUNCH_EXECUTABLE': SC.LAUNCH_NESTED, 'PERF_Event': ['PERF_THD_Data', 'PERF_STK_UHdr', 'PERF_STK_UData']}
+    two = st.sampled_from(sorted(kinds)).flatmap(lambda sn: st.fixed_dictionaries({
+        'start': st.just(sn), 'seed': S.u64, 'complete_after': st.booleans(), 'items': items(kinds[sn], 4)}))
+    ctx.run_given('two_dumps', two, prop_two_dumps, ctx.n(120, 1500))
     ctx.run_given('vmfault', vm, prop_vmfault, ctx.n(600, 9000))
     ctx.run_given('launch', la, prop_launch, ctx.n(500, 7500))
     ctx.run_given('sample', sa, prop_sample, ctx.n(900, 12000))
